@@ -1,19 +1,23 @@
 /* C16 harness body: OpenMP build on the mini-GOMP runtime; results must equal the reference model for every team size and schedule. */
 #include "h_common.h"
 #include <m4ri/mp.h>
+#include <m4ri/triangular.h>
+#include <m4ri/echelonform.h>
 const char *prop_id = "C16";
 typedef struct { int kind, m, l, n, param, team, nested, prefill; } scen_t;
-enum { F_MUL_MP, F_ADDMUL_MP, F_MUL, F_M4RM, F_ECH, F_ADDMUL_M4RM, F_NK };
-static const char *fname[] = {"mzd_mul_mp", "mzd_addmul_mp", "mzd_mul", "mzd_mul_m4rm", "mzd_echelonize_m4ri", "mzd_addmul_m4rm"};
+enum { F_MUL_MP, F_ADDMUL_MP, F_MUL, F_M4RM, F_ECH, F_ADDMUL_M4RM, F_TRSM_LL, F_TRSM_UL, F_TRSM_LR, F_TRSM_UR, F_ECH_PLUQ, F_INV, F_NK };
+static const char *fname[] = {"mzd_mul_mp", "mzd_addmul_mp", "mzd_mul", "mzd_mul_m4rm", "mzd_echelonize_m4ri", "mzd_addmul_m4rm", "mzd_trsm_lower_left", "mzd_trsm_upper_left", "mzd_trsm_lower_right", "mzd_trsm_upper_right", "mzd_echelonize_pluq", "mzd_inv_m4ri"};
 static scen_t SC[4096]; static int nsc = 0, cur = 0; static char NAME[200];
 static pm *A, *B, *C0, *REFM; static int REFRANK; static uint64_t GOTD; static int GOTRANK;
-static int g_tier = 0, g_teams_all = 0, g_prefill_only = 0;
-static void add(int kind, int m, int l, int n, int param, int team) { if (nsc < 4096) SC[nsc++] = (scen_t){kind, m, l, n, param, team, 1, 0}; }
+static int g_tier = 0, g_teams_all = 0, g_prefill_only = 0; static unsigned g_kinds = 0xffffffffu; static int g_maxteam = 99; static char g_as[8] = "C16";
+static void add(int kind, int m, int l, int n, int param, int team) { if (!(g_kinds & (1u << kind)) || team > g_maxteam) return; if (nsc < 4096) SC[nsc++] = (scen_t){kind, m, l, n, param, team, 1, 0}; }
 static void add_prefill(int kind, int m, int l, int n, int param, int team) { if (nsc < 4096) SC[nsc++] = (scen_t){kind, m, l, n, param, team, 1, 1}; }
-static void add_nested(int kind, int m, int l, int n, int param, int team, int nested) { if (nsc < 4096) SC[nsc++] = (scen_t){kind, m, l, n, param, team, nested, 0}; }
+static void add_nested(int kind, int m, int l, int n, int param, int team, int nested) { if (!(g_kinds & (1u << kind)) || team > g_maxteam) return; if (nsc < 4096) SC[nsc++] = (scen_t){kind, m, l, n, param, team, nested, 0}; }
 void hb_args(int argc, char **argv) {
   int tmin = 1, tmax = 16;
-  for (int i = 1; i < argc; i++) { if (!strcmp(argv[i], "--tier=thorough")) g_tier = 1; if (!strncmp(argv[i], "--teams=", 8)) { sscanf(argv[i] + 8, "%d-%d", &tmin, &tmax); g_teams_all = 1; } if (!strcmp(argv[i], "--prefill-only=1")) g_prefill_only = 1; }
+  for (int i = 1; i < argc; i++) { if (!strcmp(argv[i], "--tier=thorough")) g_tier = 1; if (!strncmp(argv[i], "--teams=", 8)) { sscanf(argv[i] + 8, "%d-%d", &tmin, &tmax); g_teams_all = 1; } if (!strcmp(argv[i], "--prefill-only=1")) g_prefill_only = 1;
+    /* --as=Cxx --kinds=<bitmask of F_*>: the same scenarios registered as the OpenMP-build run of another property */
+    if (!strncmp(argv[i], "--as=", 5)) snprintf(g_as, sizeof g_as, "%s", argv[i] + 5); if (!strncmp(argv[i], "--max-team=", 11)) g_maxteam = atoi(argv[i] + 11); if (!strncmp(argv[i], "--kinds=", 8)) g_kinds = (unsigned)strtoul(argv[i] + 8, NULL, 0); }
   if (g_prefill_only) {
     /* non-initial start state: the block cache is FULL of large blocks (just below the caching threshold) when the parallel product
        starts, so every release of a temporary inside a section evicts a large victim */
@@ -30,6 +34,9 @@ void hb_args(int argc, char **argv) {
     }
     /* nested regions enabled: the sections of mzd_mul_mp start real inner teams inside the M4RM base case */
     add_nested(F_MUL_MP, 1200, 130, 1160, 512, 2, 2);
+    /* entry points that reach the parallel loops indirectly (through mzd_addmul / the row-processing kernels): triangular solves,
+       PLUQ-based elimination, inversion, with > 512 rows */
+    for (int team = 2; team <= 4; team += 2) { add(F_TRSM_LL, 650, 0, 70, 0, team); add(F_TRSM_UL, 650, 0, 70, 0, team); add(F_TRSM_LR, 600, 0, 70, 0, team); add(F_TRSM_UR, 600, 0, 70, 0, team); add(F_ECH_PLUQ, 700, 0, 200, 1, team); add(F_INV, 600, 0, 0, 0, team); }
     return;
   }
   for (int ti = 0; ti < 16; ti++) {
@@ -41,6 +48,7 @@ void hb_args(int argc, char **argv) {
     /* internally parallel loops: > 512 rows so that the static chunks are spread over the threads */
     add(F_M4RM, 1025, 64, 64, 0, team); add(F_M4RM, 1537, 70, 65, 3, team); add(F_ADDMUL_M4RM, 1030, 65, 64, 0, team); add(F_MUL, 1100, 64, 130, 0, team);
     add(F_ECH, 1100, 0, 200, 1, team); add(F_ECH, 1540, 0, 130, 0, team); add(F_ECH, 520, 0, 520, 1, team);
+    if (team <= 5 || team == 8 || team == 16) { add(F_TRSM_LL, 650, 0, 70, 0, team); add(F_TRSM_UL, 650, 0, 70, 0, team); add(F_TRSM_LR, 600, 0, 70, 0, team); add(F_TRSM_UR, 600, 0, 70, 0, team); add(F_TRSM_LL, 1100, 0, 130, 0, team); add(F_TRSM_UL, 1100, 0, 65, 0, team); add(F_ECH_PLUQ, 700, 0, 200, 1, team); add(F_ECH_PLUQ, 1100, 0, 130, 0, team); add(F_INV, 600, 0, 0, 0, team); add(F_INV, 530, 0, 0, 3, team); }
     if (team >= 2 && team <= 4) { add_nested(F_MUL_MP, 1200, 700, 1160, 512, team, 2); add_nested(F_ADDMUL_MP, 1160, 650, 1200, 512, team, 2); add_nested(F_MUL_MP, 1200, 300, 1200, 512, team, 3); }
   }
 }
@@ -51,13 +59,26 @@ void hb_select(int s) { cur = s; scen_t *q = &SC[s]; snprintf(NAME, sizeof NAME,
   if (q->nested > 1) icb_max_deviations = g_tier ? 1 : 0; /* nested teams: the race detector judges the default schedule (quick); plus every single deviation (thorough) */ icb_free_sections = (q->team == 4 || q->team == 5);
   icb_dev_kinds = (q->team >= 8 && !g_tier) ? ((1u << 1) | (1u << 2) | (1u << 3) | (1u << 9)) : 0xffffffffu; /* quick, large teams: deviate at fork / join / sections / thread-end decisions only */ }
 const char *hb_name(void) { return NAME; }
-const char *hb_property(void) { return "C16"; }
+const char *hb_property(void) { return g_as; }
 void hb_prepare(void) {
   scen_t *q = &SC[cur];
   if (A) { pm_free(A); A = NULL; } if (B) { pm_free(B); B = NULL; } if (C0) { pm_free(C0); C0 = NULL; } if (REFM) { pm_free(REFM); REFM = NULL; }
   if (q->kind == F_ECH) { /* rank-deficient input so that pivot gaps occur */
     pm *L = pm_pat(q->m, (q->n * 2) / 3, (pat){P_PR, 0, 1}), *R = pm_pat((q->n * 2) / 3, q->n, (pat){P_PR, 0, 2}); A = pm_mul(L, R); pm_free(L); pm_free(R);
     REFM = q->param ? pm_rref(A) : NULL; REFRANK = pm_rank(A);
+  } else if (q->kind == F_ECH_PLUQ) {
+    pm *L = pm_pat(q->m, (q->n * 2) / 3, (pat){P_PR, 0, 1}), *R = pm_pat((q->n * 2) / 3, q->n, (pat){P_PR, 0, 2}); A = pm_mul(L, R); pm_free(L); pm_free(R);
+    REFM = pm_rref(A); REFRANK = pm_rank(A);
+  } else if (q->kind == F_INV) {
+    A = pm_dense_invertible(q->m, 5); REFM = pm_inverse(A);
+  } else if (q->kind >= F_TRSM_LL && q->kind <= F_TRSM_UR) {
+    int lower = (q->kind == F_TRSM_LL || q->kind == F_TRSM_LR), left = (q->kind == F_TRSM_LL || q->kind == F_TRSM_UL);
+    pm *T = lower ? pm_unit_lower(q->m, 3, 2) : pm_unit_upper(q->m, 3, 2), *Ti = pm_inverse(T);
+    B = left ? pm_pat(q->m, q->n, (pat){P_PR, 0, 2}) : pm_pat(q->n, q->m, (pat){P_PR, 0, 2});
+    REFM = left ? pm_mul(Ti, B) : pm_mul(B, Ti); pm_free(Ti);
+    /* junk in the unused triangle */
+    for (int i = 0; i < q->m; i++) for (int j = 0; j < q->m; j++) if (lower ? j > i : j < i) pm_set(T, i, j, (i * 7 + j * 3) % 5 < 2);
+    A = T;
   } else {
     A = pm_pat(q->m, q->l, (pat){P_PR, 0, 1}); B = pm_pat(q->l, q->n, (pat){P_PR, 0, 2}); C0 = pm_pat(q->m, q->n, (pat){P_PR, 0, 3});
     pm *AB = pm_mul(A, B); if (q->kind == F_ADDMUL_MP || q->kind == F_ADDMUL_M4RM) { REFM = pm_add(C0, AB); pm_free(AB); } else REFM = AB;
@@ -75,11 +96,17 @@ void hb_root(void) {
   case F_M4RM: R = mzd_mul_m4rm(NULL, Az, Bz, q->param); break;
   case F_ADDMUL_M4RM: Cz = mzd_from_pm(C0); R = mzd_addmul_m4rm(Cz, Az, Bz, q->param); break;
   case F_ECH: GOTRANK = mzd_echelonize_m4ri(Az, q->param, 0); R = Az; break;
+  case F_ECH_PLUQ: GOTRANK = mzd_echelonize_pluq(Az, 1); R = Az; break;
+  case F_INV: R = mzd_inv_m4ri(NULL, Az, q->param); break;
+  case F_TRSM_LL: mzd_trsm_lower_left(Az, Bz, 0); R = Bz; break;
+  case F_TRSM_UL: mzd_trsm_upper_left(Az, Bz, 0); R = Bz; break;
+  case F_TRSM_LR: mzd_trsm_lower_right(Az, Bz, 0); R = Bz; break;
+  case F_TRSM_UR: mzd_trsm_upper_right(Az, Bz, 0); R = Bz; break;
   }
   if (q->kind == F_ECH && !q->param) { pm *G = pm_from_mzd(R); pm *GR = pm_rref(G); pm *AR = pm_rref(A); GOTD = (pm_is_row_echelon(G) && pm_eq(GR, AR)) ? 1 : 2; pm_free(G); pm_free(GR); pm_free(AR); }
   else GOTD = mzd_eq_pm(R, REFM) ? 1 : 2;
   if (mzd_padding_dirty(R) >= 0) GOTD = 3;
-  if (R && R != Az && R != Cz) mzd_free(R);
+  if (R && R != Az && R != Cz && R != Bz) mzd_free(R);
   if (Cz) mzd_free(Cz);
   if (Bz) mzd_free(Bz);
   mzd_free(Az);
@@ -88,5 +115,5 @@ void hb_root(void) {
 void hb_verify(void) {
   scen_t *q = &SC[cur];
   if (GOTD != 1) { char m[200]; snprintf(m, sizeof m, "%s: result %s", NAME, GOTD == 3 ? "has non-zero padding" : "differs from the reference model (= sequential result)"); icb_fail(2, m); return; }
-  if (q->kind == F_ECH && GOTRANK != REFRANK) { char m[200]; snprintf(m, sizeof m, "%s: rank %d, reference %d", NAME, GOTRANK, REFRANK); icb_fail(2, m); }
+  if ((q->kind == F_ECH || q->kind == F_ECH_PLUQ) && GOTRANK != REFRANK) { char m[200]; snprintf(m, sizeof m, "%s: rank %d, reference %d", NAME, GOTRANK, REFRANK); icb_fail(2, m); }
 }
